@@ -171,13 +171,7 @@ Example C04_safe_exact_ex :
   ~ no_repoint_to_added or_cs /\ plan or_cs = POk or_plan /\
   replay or_plan cx_cat = Some (mkCat [1; 0; 2] [(0, 5, 1); (1, 21, 0)]) /\
   sortMap cx_cs = SMCycle /\ ~ repoint_ordered cx_cs.
-Proof.
-  refine (conj or_wf (conj or_cons (conj (proj1 or_runs) (conj or_ordered (conj _ (conj (proj1 (proj2 or_runs))
-           (conj (proj2 (proj2 or_runs)) (conj _ cx_not_ordered)))))))).
-  - intros H. apply (H (des 0) _ (mkFK 5 (cur 0) (cur 2)) (mkFK 5 (des 0) (des 1)) (or_intror (or_introl eq_refl)) (or_introl eq_refl)).
-    simpl. left. reflexivity.
-  - vm_compute. reflexivity.
-Qed.
+Proof. exact or_exact_ex. Qed.
 
 (* the dialect plans of the chain example: the re-pointed key becomes DROP then ADD *)
 Example C04_safe_ex_dialects :
@@ -193,4 +187,4 @@ Proof. vm_compute. repeat split; reflexivity. Qed.
 Example C04_safe_ex_tiebreak : detach_spec ch_cs [AddTable (des 2) []; DropTable (cur 3) [];
     AddTable (des 1) [mkFK 22 (des 1) (des 2)];
     ModifyTable (des 0) [ModifyFK (mkFK 5 (cur 0) (cur 3)) (mkFK 5 (des 0) (des 1))]].
-Proof. apply DetachCycles_spec. vm_compute. reflexivity. Qed.
+Proof. exact ch_tiebreak. Qed.
